@@ -27,7 +27,9 @@ VERIF = S.VERIF
 CACHE = os.path.join(VERIF, ".cache")
 SLOTS_DIR = "/var/tmp/verif-slots"
 NSLOTS = int(os.environ.get("VERIF_SLOTS", "8"))
-TAG_RE = re.compile(r"^(C\d\d)(\([a-z0-9]+\))?")
+# an assertion message starts with the property (or properties) whose statement it transcribes:
+#   "C07(b): ..."   or   "C07(b)/C10: ..."
+TAG_RE = re.compile(r"^(C\d\d(?:\([a-z0-9]+\))?(?:/C\d\d(?:\([a-z0-9]+\))?)*):")
 
 
 def log(*a):
@@ -231,14 +233,21 @@ def load_known():
         return {"findings": [], "fixed": []}
 
 
-def owner_of(failure, job):
+def owners_of(failure, job):
+    """properties that own a failing check: the tags of the assertion, the job's umbrella
+    properties (`also`: e.g. C05 = conformance to the documented semantics owns every semantic
+    assertion of the framework harnesses), or the job's owner for untagged failures"""
     m = TAG_RE.match(failure["description"])
     if m:
-        return m.group(1)
-    return job.owner
+        return [re.sub(r"\(.*?\)", "", t) for t in m.group(1).split("/")] + list(getattr(job, "also", []))
+    return [job.owner]
 
 
-def signature(failure, job):
+def owner_of(failure, job):
+    return owners_of(failure, job)[0]
+
+
+def signature(failure, job, pid=None):
     """Role-keyed signature: property, harness family, what failed and in which function."""
     fn = failure.get("location", "").split(" in function ")[-1].strip()
     fn = re.sub(r"::<.*", "", fn)
@@ -250,12 +259,12 @@ def signature(failure, job):
         what = descr
     what = re.sub(r"[^A-Za-z0-9]+", "-", what).strip("-")[:80]
     fam = re.sub(r"(_[smkb]\d+)+$", "", job.name)
-    return "%s:%s:%s:%s" % (owner_of(failure, job), fam, fn.split("::")[-1], what)
+    return "%s:%s:%s:%s" % (pid or owner_of(failure, job), fam, fn.split("::")[-1], what)
 
 
 def match_known(sig, failure, job, known):
     for k in known.get("findings", []):
-        if k.get("property") != owner_of(failure, job):
+        if k.get("property") not in owners_of(failure, job):
             continue
         if re.search(k["harness_regex"], job.name) and re.search(k["description_regex"], failure["description"]) \
                 and re.search(k.get("function_regex", ""), failure.get("location", "")):
@@ -357,8 +366,8 @@ def check_property(pid, tier, keep=False):
                 inconclusive.append((j, r))
                 continue
             for fl in r.get("failed", []):
-                if owner_of(fl, j) == pid:
-                    violations.append((j, fl, signature(fl, j)))
+                if pid in owners_of(fl, j):
+                    violations.append((j, fl, signature(fl, j, pid)))
                 else:
                     foreign.append((j.name, owner_of(fl, j), fl["description"]))
             if r.get("undetermined"):
@@ -390,6 +399,12 @@ def check_property(pid, tier, keep=False):
                 else:
                     pb = run_jobs(sc, [j], playback=True)[j.name]
                     test_src = pb.get("playback_test")
+                    # prefer the playback generated for one of THIS property's failing assertions
+                    wanted = [fl["description"] for fl, _ in fls]
+                    for t in pb.get("playback_tests", []):
+                        if t["kind"] != "cover" and any(t["description"].strip('"') == w for w in wanted):
+                            test_src = t["src"]
+                            break
                     rec["playback_test"] = test_src
                     if test_src:
                         reproduced, rlog = native_replay(sc, j, test_src)
@@ -449,7 +464,7 @@ def write_evidence(pid, tier, joblist, results, reported, inconclusive, foreign,
                 if st == "SATISFIED":
                     nontrivial.add((j.name, d))
             for d in r.get("tagged_ok", {}):
-                if TAG_RE.match(d) and TAG_RE.match(d).group(1) == pid:
+                if TAG_RE.match(d) and (pid in TAG_RE.match(d).group(1) or pid in getattr(j, "also", [])):
                     nontrivial.add((j.name, d))
         solver_s += (r.get("time_s") or 0)
         for s in r.get("stubs", []):
@@ -463,7 +478,8 @@ def write_evidence(pid, tier, joblist, results, reported, inconclusive, foreign,
             "undetermined": r.get("undetermined", 0),
             "cover_witnesses": r.get("covers", {}),
             "property_assertions_discharged": {d: n for d, n in r.get("tagged_ok", {}).items()
-                                               if d.startswith(pid)},
+                                               if TAG_RE.match(d) and (pid in TAG_RE.match(d).group(1)
+                                                                       or pid in getattr(j, "also", []))},
             "sat_variables": r.get("vars"), "sat_clauses": r.get("clauses"),
             "verification_time_s": r.get("time_s"), "symex_s": r.get("symex_s"), "solver_s": r.get("solver_s"),
             "reused_from_cache": bool(r.get("from_cache")), "cap_s": j.cap_s, "mem_gb": j.mem_gb,
